@@ -372,6 +372,26 @@ def _v9(ctx):
     ctx.floor(R, 2)
 
 
+def _v10(ctx):
+    R = "C03-V10"
+    ctx.doc(R, "when two reservation columns collapse onto one after null loops are removed, the survivor is chosen by comparing like with like: the value compared with the stored entry is the value that is stored")
+    MFT = "accelforge/mapper/FFM/_make_pmappings/make_pmappings_from_templates/make_pmappings_from_templates.py"
+    fi = ctx.func(MFT, "shift_reservations_by_null_loop_indices", R)
+    stores = [st for st in fi.stmts() for t, v, _ in assigned_targets(st) if isinstance(t, ast.Subscript) and norm(t.value) == "target2newabovename" and isinstance(v, ast.Tuple) and len(v.elts) == 2]
+    ctx.require(len(stores) >= 2, R, f"stores of (name, level) entries: {len(stores)}")
+    stored = {norm(st.value.elts[1]) for st in stores}
+    ctx.check(len(stored) == 1, R, fi, stores[0], f"entries store different level expressions {sorted(stored)}", f"every entry stores `{sorted(stored)[0]}`")
+    cmps = [c for c in ast.walk(fi.node) if isinstance(c, ast.Compare) and len(c.ops) == 1 and any("target2newabovename[target][1]" == norm(x) for x in [c.left] + c.comparators)]
+    ctx.require(len(cmps) == 1, R, f"comparisons against the stored level: {len(cmps)}")
+    c = cmps[0]
+    other = c.comparators[0] if norm(c.left) == "target2newabovename[target][1]" else c.left
+    ctx.check(norm(other) in stored, R, fi, c, f"`{norm(c)}` compares `{norm(other)}` with a stored `{sorted(stored)[0]}`: a shifted level is compared with an unshifted one, so the wrong one of two colliding reservation columns "
+              "is kept (the shallower reservation survives and the deeper, larger one is dropped from the capacity check)", "compared value = stored value")
+    keep_deeper = isinstance(c.ops[0], (ast.Gt, ast.Lt))
+    ctx.check(keep_deeper, R, fi, c, "the survivor is not chosen by a strict level comparison", "strict comparison of levels")
+    ctx.floor(R, 3)
+
+
 def check(ctx):
     _v7(ctx)
     _v1(ctx)
@@ -381,6 +401,7 @@ def check(ctx):
     _v6(ctx)
     _v8(ctx)
     _v9(ctx)
+    _v10(ctx)
 
 
 _MERGE_LC = "        if not CHECK_CORRECTNESS:\n            result.limit_capacity(\n                next_shared_loop_index, ignored_resources=ignored_resources\n            )\n"
